@@ -90,7 +90,8 @@ def main():
         if r["id"] in prev and "checks" in prev[r["id"]] and "checks" in r:
             merged = dict(prev[r["id"]]["checks"])
             for p, c in r["checks"].items():
-                if c["caught"] or p not in merged or not merged[p]["caught"]:
+                # a fresh result replaces the stored one; only a catch obtained at another tier is kept next to a miss
+                if c["caught"] or p not in merged or not merged[p]["caught"] or merged[p]["tier"] == c["tier"]:
                     merged[p] = c
             r["checks"] = merged
         prev[r["id"]] = r
